@@ -39,7 +39,11 @@ def run_real(case: str) -> str:
     spec = json.loads(case)
     if spec.get("retry"):
         return run_retry(spec)
-    return sp.run_real(case)
+    sp.DEXCALL = True
+    try:
+        return sp.run_real(case)
+    finally:
+        sp.DEXCALL = False
 
 
 def run_retry(spec) -> str:
